@@ -187,6 +187,9 @@ func (l *Gsub1_2) encodeLen() int {
 func (l *Gsub1_2) encode() []byte {
 	n := len(l.SubstituteGlyphIDs)
 	covOffs := 6 + 2*n
+	if covOffs > 0xFFFF {
+		panic("coverage offset overflow")
+	}
 
 	buf := make([]byte, covOffs+l.Cov.EncodeLen())
 	// buf[0] = 0
@@ -309,6 +312,9 @@ func (l *Gsub2_1) encode() []byte {
 	for i, repl := range l.Repl {
 		sequenceOffsets[i] = uint16(covOffs)
 		covOffs += 2 + 2*len(repl)
+	}
+	if covOffs > 0xFFFF {
+		panic("coverage offset overflow")
 	}
 
 	buf := make([]byte, covOffs+l.Cov.EncodeLen())
@@ -433,6 +439,9 @@ func (l *Gsub3_1) encode() []byte {
 	for i, repl := range l.Alternates {
 		alternateSetOffsets[i] = uint16(covOffs)
 		covOffs += 2 + 2*len(repl)
+	}
+	if covOffs > 0xFFFF {
+		panic("coverage offset overflow")
 	}
 
 	buf := make([]byte, covOffs+l.Cov.EncodeLen())
